@@ -83,6 +83,14 @@ type forgery struct {
 	apply  func(w *gen.World, q *gen.RefQuote, s *gen.Stream)
 }
 
+func bytesOfLen(n int, v byte) []byte {
+	b := make([]byte, n)
+	for i := range b {
+		b[i] = v
+	}
+	return b
+}
+
 func foreignKey(s *gen.Stream) *gen.Key { return gen.DeriveKey(fmt.Sprintf("foreign/%d", s.Intn(8))) }
 
 var c01Forgeries = []forgery{
@@ -197,6 +205,48 @@ var c01Forgeries = []forgery{
 	{"hash-correct-trailing-nonzero", "reject", func(w *gen.World, q *gen.RefQuote, s *gen.Stream) {
 		gen.BindHash(q)
 		q.QeReportData[32+s.Intn(32)] = byte(1 + s.Intn(255))
+		gen.SignQe(q, w.Leaf.Key)
+	}},
+	{"hash-digest-altered-qe-resigned", "reject", func(w *gen.World, q *gen.RefQuote, s *gen.Stream) {
+		// the QE report (validly re-signed by the PCK key) carries a digest that differs from SHA-256(key || auth)
+		// in one bit, in the case bit of a byte, or in one byte >= 0x80 replaced by another: a comparison that is
+		// looser than byte equality (text folding, prefix, skipping) would let it through
+		gen.BindHash(q)
+		d := q.QeReportData[:32]
+		switch s.Intn(5) {
+		case 0:
+			bit := s.Intn(256)
+			d[bit/8] ^= 1 << uint(bit%8)
+		case 1:
+			// the 0x20 bit of a byte that is an ASCII letter either way, if there is one
+			done := false
+			for off := 0; off < 32 && !done; off++ {
+				i := (off + s.Intn(32)) % 32
+				c := d[i] | 0x20
+				if c >= 'a' && c <= 'z' {
+					d[i] ^= 0x20
+					done = true
+				}
+			}
+			if !done {
+				d[s.Intn(32)] ^= 0x20
+			}
+		case 2:
+			// a byte >= 0x80 replaced by another byte >= 0x80 (both invalid as UTF-8 on their own)
+			i := s.Intn(32)
+			for k := 0; k < 32 && d[i] < 0x80; k++ {
+				i = (i + 1) % 32
+			}
+			nv := byte(0x80 | s.Intn(128))
+			if nv == d[i] {
+				nv ^= 0x01
+			}
+			d[i] = nv
+		case 3:
+			d[31] ^= 0x01 // last byte only
+		default:
+			d[0] ^= 0x80 // first byte only
+		}
 		gen.SignQe(q, w.Leaf.Key)
 	}},
 	{"hash-correct-trailing-words-cancel", "reject", func(w *gen.World, q *gen.RefQuote, s *gen.Stream) {
@@ -430,6 +480,21 @@ func TestC01(t *testing.T) {
 				mm{fmt.Sprintf("qe.isv_prod_id^%#x", d), func(m *pb.QuoteV4) { m.SignedData.CertificationData.QeReportCertificationData.QeReport.IsvProdId ^= d }},
 			)
 		}
+		// registers appended to the (repeated) RTMR field of the message: nothing the attestation key signed
+		for _, extra := range [][]byte{make([]byte, 48), bytesOfLen(48, 0x5a), {}, bytesOfLen(1, 1), bytesOfLen(96, 7)} {
+			extra := extra
+			for n := 1; n <= 3; n += 2 {
+				n := n
+				muts = append(muts, mm{fmt.Sprintf("body.rtmrs+%dx%d-bytes", n, len(extra)), func(m *pb.QuoteV4) {
+					for i := 0; i < n; i++ {
+						m.TdQuoteBody.Rtmrs = append(m.TdQuoteBody.Rtmrs, append([]byte{}, extra...))
+					}
+				}})
+			}
+		}
+		muts = append(muts, mm{"body.rtmrs+copy-of-rtmr0", func(m *pb.QuoteV4) {
+			m.TdQuoteBody.Rtmrs = append(m.TdQuoteBody.Rtmrs, append([]byte{}, m.TdQuoteBody.Rtmrs[0]...))
+		}})
 		bytesFields := func(m *pb.QuoteV4) map[string]*[]byte {
 			r := m.SignedData.CertificationData.QeReportCertificationData
 			b := m.TdQuoteBody
